@@ -36,7 +36,11 @@ func (x expiryCase) key() string { return fmt.Sprintf("expiry-%s-%s-%s", x.Form,
 
 func markerExpiryCases(run *harness.Run) {
 	var cases []expiryCase
-	for _, form := range []string{"del", "unlink"} {
+	// bare-marker / marker-only: a snapshot-phase unit (marker + business, no record) whose business
+	// commands had no effect at the target (the key appeared there between the existence probe and
+	// the unit, RESTORE answered BUSYKEY, SADD of members that are all there): the target's master
+	// propagates the marker alone - from Redis 7 on without MULTI/EXEC, a one-command unit.
+	for _, form := range []string{"del", "unlink", "bare-marker", "marker-only"} {
 		for _, m := range modes {
 			for _, f := range []string{"none", "prefix-whitelist"} {
 				cases = append(cases, expiryCase{Form: form, Mode: m, Filter: f})
@@ -143,7 +147,12 @@ func oneExpiryCase(run *harness.Run, x expiryCase) {
 		{[]byte("SET"), []byte("biz:A:s:1"), []byte(probeID + "v")},
 	}
 	unit = append(unit, tail...)
-	B.prop.AppendUnit(0, 9999, unit, true)
+	wrapped := true
+	if x.Form == "bare-marker" || x.Form == "marker-only" {
+		unit = [][][]byte{{[]byte("SET"), marker.Args[0], marker.Args[1], []byte("PXAT"), []byte(pxat)}}
+		wrapped = x.Form == "marker-only"
+	}
+	B.prop.AppendUnit(0, 9999, unit, wrapped)
 	// flush: a client write at B, behind the injected transaction in B's stream
 	if _, err := cb.do("SET", "biz:sen:B", "~Bsen.1~"); err != nil {
 		skip(err.Error())
@@ -180,6 +189,12 @@ func oneExpiryCase(run *harness.Run, x expiryCase) {
 		var inj []string
 		for _, cmd := range unit {
 			inj = append(inj, argStrs(string(cmd[0]), cmd[1:]))
+		}
+		if !wrapped || x.Form == "marker-only" {
+			run.Violation(fmt.Sprintf("echo|marker-of-the-peer-link-sent-back|%s|mode=%s|filter=%s", x.Form, x.Mode, x.Filter), key,
+				"site A: link B→A executed bookkeeping of link A→B at A: the marker of a snapshot unit whose business commands had no effect at B is propagated alone (without MULTI/EXEC from Redis 7 on) and must be dropped like every other stand-alone command in the reserved namespace",
+				map[string]any{"config": c.String(), "injected_into_stream_of_B": inj, "wrapped_in_MULTI_EXEC": wrapped, "executed_at_A_by_link_B→A": got})
+			return
 		}
 		run.Violation(fmt.Sprintf("echo|own-unit-behind-marker-expiry-deletion|%s|mode=%s|filter=%s", x.Form, x.Mode, x.Filter), key,
 			fmt.Sprintf("site A: link B→A executed commands of a transaction link A→B had written at B: the %s of the expired marker key in front of the marker SET hid the mirrored transaction, its business command of origin A came back to A", strings.ToUpper(x.Form)),
